@@ -380,5 +380,5 @@ func init() {
 	register(&Family{Name: "c08-history", Count: func(tier string) int { return map[string]int{"quick": 3000, "thorough": 100000}[tier] },
 		Gen: genC08History, New: newSc, Run: runC08, Policy: pol, VirtCap: 100 * time.Hour})
 	register(&Family{Name: "c08-altered", Enumerated: true, Count: c08AlteredCount, Gen: genC08Altered, New: newSc, Run: runC08, Policy: pol, VirtCap: 100 * time.Hour})
-	plans["C08"] = []string{"c08-history", "c08-altered"}
+	plans["C08"] = []string{"c08-history", "c08-altered", "c08-live-replay"}
 }
